@@ -428,6 +428,7 @@ pub fn generate_run(rng: &mut Rng, n: usize, _tier: &str, dialects: &[&str], fla
         (call(12, vec![quote(atom(&[0, 0x80])), quote(int(0)), quote(int(1))]), T::nil()),
     ];
     let mut progs: Vec<(T, T)> = corpus;
+    progs.extend(huge_cost_corpus());
     for _ in 0..n {
         let (p, e) = random_program(rng, 25, true);
         if rng.chance(1, 5) {
@@ -838,6 +839,23 @@ pub fn generate_run_softfork_args(_rng: &mut Rng, _n: usize, _tier: &str) -> Vec
                 out.push(format!("RUN k{} chia {:x} 0 - {} 80", id, flags, trees::to_hex(&p)));
                 id += 1;
             }
+        }
+    }
+    out
+}
+
+/// programs whose cost is near 2^63 and 2^64 (a softfork guard with an unknown extension charges its
+/// declared cost without running anything): budget 0 must still mean "unlimited", and the budget
+/// comparisons must not be done in a narrower or signed type
+pub fn huge_cost_corpus() -> Vec<(T, T)> {
+    let mut out = vec![];
+    for declared in [(1u128 << 63) - 200, (1 << 63) - 81, 1 << 63, (1 << 63) + 1000, (1 << 64) - 1000, (1 << 62) + 7, (1 << 32) + 5] {
+        let mut b = declared.to_be_bytes().to_vec();
+        while b.len() > 1 && b[0] == 0 && b[1] & 0x80 == 0 {
+            b.remove(0);
+        }
+        for ext in [9i128, 2] {
+            out.push((call(36, vec![quote(T::Atom(b.clone())), quote(int(ext)), quote(int(0)), quote(int(0))]), T::nil()));
         }
     }
     out
